@@ -17,7 +17,7 @@ META = {
     'functions_encoded': ['emitted C of the real translator for every encoding variant (c) + w2c2_base.h', 'leb128.h: leb128ReadU32 leb128ReadI32 leb128ReadU64 leb128ReadI64', 'buffer.h', 'reader.c: wasmModuleRead and every section reader', 'section.c', 'instruction.c: wasmConstInstructionRead', 'valuetype.c', 'array.c', 'export.c'],
     'bounds': {'LEB128': 'all byte strings of length 0..6 (32-bit) / 0..11 (64-bit): complete', 'templates': '2 modules (<= 140 bytes) covering type/import/function/table/memory/global/export/start/element/datacount/code/data sections, '
                'flag-0 / flag-2 / passive data segments, absent optional sections', 'padding': 'every LEB128 field x {1, max} extra bytes (quick) / every amount (thorough), one field at a time',
-               'encodings (c)': 'quick: 28 programs x {all fields +1, all fields max, equivalent spelling} + single-field max padding for 3 programs; thorough: every family program; '
+               'encodings (c)': 'quick: 28 programs x {all fields +1, all fields max, equivalent spelling} + single-field max padding for 3 programs; thorough: every 3rd program of every family (seed-rotated) + every 5th branch-matrix shape; '
                'single-field paddings whose emitted C is byte-identical to the minimal encoding inherit its verdict, others are solver jobs (w2c2 orders function definitions by a key that depends on the body bytes, so the text may be permuted)',
                'custom sections': 'one per query at every section boundary, concrete name (0-3 bytes) and content (0-3 bytes), size field padded 0/2'},
     'assumptions': ['SHA-1 is stubbed (arbitrary digest, input read in bounds): hashing is irrelevant to decoding',
@@ -83,14 +83,15 @@ def pool(ctx):
     cf_script = [{'call': 'f', 'assume': {0: '$ <= 3'}}]
     uw = ['--unwindset', 'streq.0:26']
     bm = dict(F.branch_matrix())
-    for n in ('brtable_n3_p0', 'br_i64_d3_l1_e2_if', 'locals_groups_1') if ctx.quick else sorted(bm):
+    for n in ('brtable_n3_p0', 'br_i64_d3_l1_e2_if', 'locals_groups_1') if ctx.quick else [x for i, x in enumerate(sorted(bm)) if i % 5 == ctx.seed % 5]:
         out.append(('cf_' + n, bm[n], cf_script, dict(harness_kw={'max_host_calls': 8}, unwind=6, extra_flags=uw)))
     for k in ((3, 11) if ctx.quick else range(0, 60, 3)):
         out.append(('cfr_%d' % k, F.control_flow(0, k), cf_script, dict(harness_kw={'max_host_calls': 12}, unwind=6, extra_flags=uw)))
     def pick(fam, names, kw):
         lst = fam(ctx.seed, ctx.quick)
-        for (name, m, script, hk) in lst:
-            if names is None or name in names:
+        for li, (name, m, script, hk) in enumerate(lst):
+            # thorough: every 3rd program of each family, rotating with the seed (the families themselves are decided in full by C04-C07/C16)
+            if (names is None and li % 3 == ctx.seed % 3) or (names is not None and name in names):
                 k2 = dict(kw); k2['harness_kw'] = hk
                 if 'shared' in name or name.startswith('atomic') or name.startswith('futex'):
                     k2['extra_defs'] = ['-DWASM_THREADS_PTHREADS']
